@@ -71,6 +71,7 @@ func genCfg() *hist.GenCfg {
 		WideIdxs:  []int{8, 9, 10, 11, 16, 17},
 		Sources:   6,
 		Seps:      []string{".", ".", ".", "/", "::", "|"},
+		Drain:     4,
 	}
 }
 
@@ -322,7 +323,7 @@ func checkRead(st *hist.State, h hist.Handle, a hist.Addr, salt int, r *runlog.R
 		if o.HasErr || !o.Has {
 			return fail("Has must be true (err=%v)", o.errHas)
 		}
-		if err := checkNode(hist.Handle{C: o.Child, M: want, ID: -1}, fmt.Sprintf("Child%v of handle #%d", a, h.ID)); err != nil {
+		if err := checkNode(hist.Handle{C: o.Child, M: want, ID: -1}, fmt.Sprintf("Child%v of handle #%d", a, h.ID), shapeOf(st), r); err != nil {
 			return err
 		}
 	default:
@@ -344,7 +345,7 @@ func checkRead(st *hist.State, h hist.Handle, a hist.Addr, salt int, r *runlog.R
 			if o.Child == nil {
 				return fail("Child returned nil without an error")
 			}
-			if err := checkNode(hist.Handle{C: o.Child, M: model.NewCont(), ID: -1}, fmt.Sprintf("Child%v (a nil setting) of handle #%d", a, h.ID)); err != nil {
+			if err := checkNode(hist.Handle{C: o.Child, M: model.NewCont(), ID: -1}, fmt.Sprintf("Child%v (a nil setting) of handle #%d", a, h.ID), listsOnly, r); err != nil {
 				return err
 			}
 		}
@@ -375,8 +376,20 @@ func respelled(a hist.Addr, sep string) bool {
 	return false
 }
 
+// shape says how much the model knows about the list-ness of nodes without list elements.
+type shape int
+
+const (
+	// strict: a node is a list iff the model says so (model.Node.IsList)
+	strict shape = iota
+	// listsOnly: what the model calls a list must be one; a node the model has no list part for may be
+	// either (hist.State.LooseEmpty: an empty list met a nil or a container without a list part; the
+	// child the library gives for a nil setting)
+	listsOnly
+)
+
 // checkNode: the frame condition and the shape queries for one handle.
-func checkNode(h hist.Handle, what string) error {
+func checkNode(h hist.Handle, what string, sh shape, r *runlog.R) error {
 	got, err := uc.Dump(h.C)
 	if err != nil {
 		return fmt.Errorf("%s: dumping failed: %v", what, err)
@@ -386,13 +399,27 @@ func checkNode(h hist.Handle, what string) error {
 		return fmt.Errorf("%s differs from the model\n got  %s\n want %s", what,
 			canon.String(canon.Split(canon.Of(got))), canon.String(canon.Split(canon.Of(want))))
 	}
+	// the canonical comparison reads "no setting", nil and an empty list alike: the empty lists separately
+	if err := emptyListsKept(got, h.M, what, true, r); err != nil {
+		return err
+	}
 	if d := h.C.IsDict(); d != (len(h.M.D) > 0) {
 		return fmt.Errorf("%s: IsDict() = %v but the model has %d named keys", what, d, len(h.M.D))
 	}
-	// an emptied list is still reported as a list by the library; the statement is silent
-	if a := h.C.IsArray(); len(h.M.A) > 0 && !a {
+	// A list is a list however many elements it holds: one whose elements were all removed (or that was
+	// written as an empty list where nothing was) is a list with 0 elements. A node that never had a list
+	// part is none.
+	switch a := h.C.IsArray(); {
+	case h.M.IsList() && !a:
+		if len(h.M.A) == 0 {
+			return fmt.Errorf("%s: IsArray() = false but the model holds a list there whose elements were all removed (or that was written as an empty list): it is a list with 0 elements", what)
+		}
 		return fmt.Errorf("%s: IsArray() = false but the model has %d list elements", what, len(h.M.A))
+	case !h.M.IsList() && a && sh == strict:
+		return fmt.Errorf("%s: IsArray() = true but the model has never had a list part there (%d named keys)", what, len(h.M.D))
 	}
+	r.ClassIf(h.M.IsList() && len(h.M.A) == 0, "shape queries on a list with 0 elements")
+	r.ClassIf(!h.M.IsList() && sh == strict, "IsArray() = false asserted for a node without list part")
 	// CountField(""): "the total number of top-level settings". An entry that holds nil exists (see the
 	// nil case of checkRead), so it counts: list padding and named keys alike.
 	n, err := h.C.CountField("")
@@ -411,11 +438,58 @@ func checkNode(h hist.Handle, what string) error {
 			return fmt.Errorf("%s: CountField(%q) = %d for a nil setting", what, k, n)
 		case v.Kind == "prim" && n != 1:
 			return fmt.Errorf("%s: CountField(%q) = %d for a primitive", what, k, n)
-		case v.Kind == "cont" && len(v.D) == 0 && len(v.A) > 0 && n != len(v.A):
+		case v.Kind == "cont" && len(v.D) == 0 && v.IsList() && n != len(v.A):
+			// "number of entries in a table": a list with 0 elements has 0 entries
 			return fmt.Errorf("%s: CountField(%q) = %d for a list of %d elements", what, k, n, len(v.A))
+		}
+		r.ClassIf(v.IsEmptyList(), "CountField(name) = 0 asserted for a list with 0 elements")
+	}
+	return nil
+}
+
+// emptyListsKept: where the model holds a list with 0 elements (model.Node.IsEmptyList) the generic view
+// must show an empty list, not nothing: "removals affect only the addressed setting", the list the last
+// element was removed from is still there. Only nodes reached through pure dictionaries and pure lists
+// are looked at (the generic view of a mixed node below the top level is not defined by the statement).
+func emptyListsKept(got interface{}, m *model.Node, what string, top bool, r *runlog.R) error {
+	if m.Kind != "cont" {
+		return nil
+	}
+	if m.IsEmptyList() {
+		if l, ok := got.([]interface{}); !ok || len(l) != 0 {
+			return fmt.Errorf("%s: the model holds a list with 0 elements but the generic view (Unpack) shows %s", what, canon.Show(got))
+		}
+		r.Class("generic view shows a list with 0 elements")
+		return nil
+	}
+	switch g := got.(type) {
+	case map[string]interface{}:
+		if len(m.A) > 0 && !top {
+			return nil
+		}
+		for _, k := range m.SortedKeys() {
+			if err := emptyListsKept(g[k], m.D[k], what+": setting "+strconv.Quote(k), false, r); err != nil {
+				return err
+			}
+		}
+	case []interface{}:
+		if len(m.D) > 0 || len(g) != len(m.A) {
+			return nil
+		}
+		for i, e := range m.A {
+			if err := emptyListsKept(g[i], e, what+": element "+strconv.Itoa(i), false, r); err != nil {
+				return err
+			}
 		}
 	}
 	return nil
+}
+
+func shapeOf(st *hist.State) shape {
+	if st.LooseEmpty {
+		return listsOnly
+	}
+	return strict
 }
 
 // checkAll is the oracle applied after every step: the frame condition for
@@ -424,11 +498,11 @@ func checkNode(h hist.Handle, what string) error {
 // root and one through a pooled handle, rotating; before the first and after
 // the last step every read address is read through the root and every handle.
 func checkAll(st *hist.State, c Case, step int, info *hist.Info, r *runlog.R) error {
-	if err := checkNode(st.Root, "the root"); err != nil {
+	if err := checkNode(st.Root, "the root", shapeOf(st), r); err != nil {
 		return err
 	}
 	for _, h := range st.Pool {
-		if err := checkNode(h, fmt.Sprintf("handle #%d", h.ID)); err != nil {
+		if err := checkNode(h, fmt.Sprintf("handle #%d", h.ID), shapeOf(st), r); err != nil {
 			return err
 		}
 	}
@@ -541,7 +615,7 @@ func runCase(c Case, r *runlog.R) error {
 	if err := checkAll(st, c, -1, nil, r); err != nil {
 		return fmt.Errorf("initial state: %v%s", err, trace(c, -1))
 	}
-	nt, afterCfgMerge := false, false
+	nt, afterCfgMerge, emptied := false, false, false
 	for i, op := range c.Ops {
 		info, err := st.Apply(op)
 		if err != nil {
@@ -560,6 +634,18 @@ func runCase(c Case, r *runlog.R) error {
 		r.ClassIf(info.Overlap, "overwrite or removal of an earlier write")
 		r.ClassIf(info.Padded, "padding")
 		r.ClassIf(info.Shifted, "shifting removal")
+		r.ClassIf(info.Emptied, "removal of the last remaining element of a list")
+		r.ClassIf(info.Emptied && len(info.Receiver.M.A) == 0 && op.Name == "", "removal emptied the receiver's own list part")
+		r.ClassIf(info.BelowEmpty && info.Wrote && op.Kind != hist.Remove, "write into a list with 0 elements (refill)")
+		r.ClassIf(info.BelowEmpty && info.Wrote && info.Padded, "padding write into a list with 0 elements")
+		r.ClassIf(info.BelowEmpty && op.Kind == hist.Remove, "removal from a list with 0 elements")
+		r.ClassIf(info.RecvEmpty && info.ViaHandle && info.Wrote, "write through the handle of a list with 0 elements")
+		r.ClassIf(info.RecvEmpty && op.Kind == hist.Merge && info.Skipped == "", "merge into a list with 0 elements")
+		r.ClassIf(info.EmptyHandle, "handle of a list with 0 elements pooled")
+		r.ClassIf(info.EmptyBrought && info.Skipped == "", op.Kind+" brings in a list with 0 elements")
+		if info.Emptied {
+			emptied = true
+		}
 		r.ClassIf(info.Retired > 0, "merge retired handles")
 		if op.Kind == hist.Merge && info.Skipped == "" {
 			r.Class("merge source: " + info.Source)
@@ -590,6 +676,8 @@ func runCase(c Case, r *runlog.R) error {
 	}
 	r.NonTrivialIf(nt)
 	r.ClassIf(afterCfgMerge, "history writes on either side after a merge from a *Config")
+	r.ClassIf(emptied, "history empties a list by removals")
+	r.ClassIf(st.LooseEmpty, "history where an empty list met a nil or a node without list part (IsArray() = false not asserted from then on)")
 	r.ClassIf(c.PathSep, "with PathSep")
 	r.ClassIf(c.PathSep && c.Sep != "", "with PathSep other than \".\": "+c.Sep)
 	r.ClassIf(!c.PathSep, "without PathSep")
